@@ -20,6 +20,15 @@ fn arg(args: &[String], name: &str) -> Option<String> {
 
 fn main() {
     std::panic::set_hook(Box::new(|_| {}));
+    let r = std::panic::catch_unwind(real_main);
+    if let Err(p) = r {
+        let msg = p.downcast_ref::<String>().cloned().or_else(|| p.downcast_ref::<&str>().map(|s| s.to_string())).unwrap_or_default();
+        println!("INCONCLUSIVE: the harness itself failed: {msg}");
+        std::process::exit(2);
+    }
+}
+
+fn real_main() {
     let args: Vec<String> = std::env::args().collect();
     match args.get(1).map(|s| s.as_str()) {
         Some("check") => {
